@@ -451,8 +451,7 @@ func (c *Ctx) feasible(g *Term) (bool, Model) {
 		c.st.SyntacticPrunes++
 		return false, nil
 	}
-	q := append(append([]*Term{}, c.pc...), g)
-	r, m, _ := c.S.Check(q, true)
+	r, m, _ := c.S.CheckPC(c.pc, []*Term{g}, true)
 	c.st.FeasQueries++
 	switch r {
 	case Unsat:
